@@ -403,7 +403,14 @@ pub fn gen_u2(c: &mut Chooser, rule_counts: &[usize], player_counts: &[usize]) -
             ]);
             // (the password flag of the response comes from this rule: with the key chosen, its usual values come first)
             let val = if key.expected() == "GamePassword" {
-                pick(c, &[UStr::plain("True"), UStr::plain("False"), UStr::plain("true"), UStr::plain("TRUE"), UStr::plain(""), UStr::plain("1"), UStr::plain("Truely")])
+{
+                // (the first rule to take this key says True by default, a later one False: both are one deviation away)
+                let mut vals = vec![UStr::plain("True"), UStr::plain("False"), UStr::plain("true"), UStr::plain("TRUE"), UStr::plain(""), UStr::plain("1"), UStr::plain("Truely")];
+                if i > 0 {
+                    vals.swap(0, 1);
+                }
+                pick(c, &vals)
+            }
             } else {
                 pick(c, &{
                     let mut a = ustr_alts(["dedicated", "root", "MutInstaGib"][i]);
